@@ -51,6 +51,11 @@ impl org_verif_test::VarlinkInterface for TestImpl {
         call.reply(token, n)
     }
 
+    fn slow(&self, call: &mut dyn org_verif_test::Call_Slow, token: String, ms: i64) -> varlink::Result<()> {
+        std::thread::sleep(std::time::Duration::from_millis(ms.clamp(0, 5_000) as u64));
+        call.reply(token)
+    }
+
     fn fail(&self, call: &mut dyn org_verif_test::Call_Fail, token: String) -> varlink::Result<()> {
         call.reply_failed(token)
     }
